@@ -51,6 +51,40 @@ pub fn run(ctx: &Ctx) -> i32 {
     let rep = run_sharded(ctx, "c26", n, move |rng, i, rep| {
         // a valid text first
         let base: String = match i % 5 {
+            0 if i % 15 == 0 || i % 15 == 10 => {
+                // scanner directives (%on, %skip) that name arbitrary non-terminals: empty
+                // productions, sequences, alternatives, undefined names
+                let sp = ScanProfile { max_modes: 3, p_lookahead: 10, p_skip: 60, p_allow_unmatched: 20, p_auto_off: 20, comments: false, lalr: i % 30 == 0 };
+                let mut g = gen_scan_case(rng, &sp).g;
+                use crate::gram::{AstCtl, Factor, Rule, ScannerState, Trans};
+                if rng.chance(2, 3) {
+                    g.rules.push(Rule { name: "Empty".into(), alts: vec![vec![]] });
+                }
+                if rng.chance(1, 2) && !g.terms.is_empty() {
+                    g.rules.push(Rule { name: "Two".into(), alts: vec![vec![Factor::T(0, AstCtl::default()), Factor::T(0, AstCtl::default())]] });
+                }
+                if rng.chance(1, 2) && !g.terms.is_empty() {
+                    g.rules.push(Rule { name: "Alt2".into(), alts: vec![vec![Factor::T(0, AstCtl::default())], vec![]] });
+                }
+                if g.states.len() < 2 && rng.chance(1, 2) {
+                    g.states.push(ScannerState::new("Other"));
+                }
+                let mut names = g.nt_names();
+                names.push("Undefined".into());
+                let nstates = g.states.len();
+                for _ in 0..rng.range(1, 3) {
+                    let st = rng.below(nstates);
+                    let n = rng.pick(&names[..]).clone();
+                    if rng.chance(1, 2) {
+                        g.states[st].skip.push(n);
+                    } else {
+                        let target = g.states[rng.below(nstates)].name.clone();
+                        let tr = match rng.below(3) { 0 => Trans::Enter(target), 1 => Trans::Push(target), _ => Trans::Pop };
+                        g.states[st].on.push((vec![n], tr));
+                    }
+                }
+                g.to_par()
+            }
             0 => {
                 let sp = ScanProfile { max_modes: 3, p_lookahead: 30, p_skip: 40, p_allow_unmatched: 30, p_auto_off: 30, comments: true, lalr: i % 10 == 5 };
                 let mut g = gen_scan_case(rng, &sp).g;
